@@ -53,8 +53,10 @@ def depth(t):
 
 
 # ------------------------------------------------------------------ generators
-def gen_scalar(r):
+def gen_scalar(r, allow_flag=True):
     k = r.choice(["uint", "uint", "int", "int", "bool", "address", "bytesM", "decimal", "flag"])
+    if k == "flag" and not allow_flag:
+        k = "uint"
     if k in ("uint", "int"):
         return (k, r.choice([8, 16, 64, 128, 248, 256, 8 * r.randint(1, 32)]))
     if k == "bytesM":
@@ -73,15 +75,16 @@ def gen_type(r, d, allow_bytes=True, budget=2500):
     return ("uint", 256)
 
 
-def _gen_type(r, d, allow_bytes):
+def _gen_type(r, d, allow_bytes, allow_flag=True):
+    # vyper: static arrays of Bytes/String/flag are not allowed
     if d == 0 or r.random() < 0.15:
         c = r.random()
         if allow_bytes and c < 0.4:
             return (r.choice(["bytes", "string"]), r.choice([1, 5, 31, 32, 33, 40, 64, 65]))
-        return gen_scalar(r)
+        return gen_scalar(r, allow_flag)
     k = r.choice(["sarr", "darr", "darr", "tuple", "tuple"])
     if k == "sarr":
-        return ("sarr", _gen_type(r, d - 1, False), r.choice([1, 2, 3]))
+        return ("sarr", _gen_type(r, d - 1, False, False), r.choice([1, 2, 3]))
     if k == "darr":
         return ("darr", _gen_type(r, d - 1, True), r.choice([1, 2, 3, 4]))
     n = r.choice([1, 2, 2, 3, 4])
